@@ -1017,3 +1017,15 @@ Definition ex_args : list pyval := [VRef 0%nat; VAtom EMPTY_BYTES].
 Definition ex_muts : list step := [SMut (MSetItem 0%nat (Ak "k2") (A "v2"))].
 
 
+
+(* ------------------------------------------------------------------ *)
+(* Transport: pickle.dumps / loads (any protocol), copy.copy, copy.deepcopy,
+   possibly into another process (another string-hash seed).  On the model's
+   values it is the identity.  [observe] - in particular [obj_hash] and
+   [obj_eqb] - is a function of the abstract content ([resolve]) only: it sees
+   neither the identity of the Python object, nor what happened to it before
+   (whether it has been hashed), nor the process it lives in.  A hash memo that
+   survives transport is exactly a deviation from this model. *)
+Definition transport (v : pyval) : pyval := v.
+Fixpoint transports (n : nat) (v : pyval) : pyval :=
+  match n with O => v | S k => transports k (transport v) end.
